@@ -120,9 +120,42 @@ def proc_cpu_seconds(pid):
         return None
 
 
-def all_threads_blocked_untimed(pid):
-    """True iff every thread is asleep in an untimed wait (futex with NULL timeout, blocking read/recv/poll
-    with infinite timeout).  DESIGN.md 1.3."""
+def descendants(pid):
+    """pids of all live descendants of pid (children of the harness such as a Python peer or a forked helper)."""
+    kids = {}
+    for d in os.listdir('/proc'):
+        if not d.isdigit(): continue
+        try:
+            with open('/proc/%s/stat' % d) as f: st = f.read()
+            rest = st[st.rindex(')') + 2:].split()
+            if rest[0] == 'Z': continue      # zombie: already dead
+            kids.setdefault(int(rest[1]), []).append(int(d))
+        except Exception:
+            continue
+    out = []; todo = [pid]
+    while todo:
+        p = todo.pop()
+        for k in kids.get(p, []):
+            out.append(k); todo.append(k)
+    return out
+
+
+def tree_cpu_seconds(pid):
+    tot = proc_cpu_seconds(pid)
+    if tot is None: return None
+    for k in descendants(pid):
+        c = proc_cpu_seconds(k)
+        if c: tot += c
+    return tot
+
+
+def all_threads_blocked_untimed(pid, with_descendants=True):
+    """True iff every thread of the process AND of every live descendant process is asleep in an untimed wait
+    (futex with NULL timeout, blocking read/recv/poll with infinite timeout).  DESIGN.md 1.3.  A harness that waits
+    in a blocking read for a child that is still computing is therefore NOT blocked."""
+    if with_descendants:
+        for k in descendants(pid):
+            if not all_threads_blocked_untimed(k, False): return False
     try:
         tids = os.listdir('/proc/%d/task' % pid)
     except Exception:
@@ -229,7 +262,7 @@ def run_chunk(run, leg, widx, frm, count, deadline):
         with open(err, 'wb') as ef:
             p = subprocess.Popen(cmd, stdout=ef, stderr=subprocess.STDOUT, env=_worker_env(leg), cwd=run.work)
         last_case = None; case_cpu0 = proc_cpu_seconds(p.pid) or 0.0; case_wall0 = time.time(); blocked_samples = 0
-        last_cpu = case_cpu0; last_cpu_change = time.time()
+        last_cpu = case_cpu0; last_cpu_change = time.time(); last_tree_cpu = None
         verdict = None
         while True:
             try:
@@ -247,6 +280,10 @@ def run_chunk(run, leg, widx, frm, count, deadline):
             if cpu - case_cpu0 > budget:
                 verdict = ('cpu-budget', 'case consumed more than %.0f CPU-seconds' % budget); break
             if now - last_cpu_change > 3.0 and all_threads_blocked_untimed(p.pid):
+                tc = tree_cpu_seconds(p.pid)
+                if tc is not None and tc != last_tree_cpu:      # a child consumed CPU since the last sample: still running
+                    last_tree_cpu = tc; blocked_samples = 0
+                    continue
                 blocked_samples += 1
                 if blocked_samples >= 6:   # 3 s of consecutive samples
                     verdict = ('deadlock', 'every thread blocked without a timeout, no CPU consumed, 6 consecutive samples'); break
